@@ -101,7 +101,7 @@ fn main() {
         Some("c11cli") => {
             let thorough = args.get(2).map(String::as_str) == Some("thorough");
             let seed: u64 = args.get(3).and_then(|s| s.parse().ok()).unwrap_or(1);
-            train::cli_train(thorough, seed);
+            train::cli_train(thorough, seed, args.get(4).map(String::as_str).unwrap_or("C11"));
         }
         Some("c17cli") => {
             let thorough = args.get(2).map(String::as_str) == Some("thorough");
@@ -140,6 +140,7 @@ fn run_case(line: &str, fails: &mut Vec<(String, String)>, effective: &mut Optio
         ["H", cfg, preds, ops, oracle] => pred::run_h(cfg, preds, ops, oracle, fails),
         [k, ..] if matches!(*k, "B" | "RS" | "RX" | "RF" | "WF") => bin::run(&toks, fails),
         ["E", ..] => pred::run_e(&toks, fails),
+        ["BD", n, seed, ..] => pred::run_bd(n.parse().unwrap_or(1000), seed.parse().unwrap_or(1), fails),
         ["TR", ..] => train::run(&toks, fails, effective),
         [k, ..] if matches!(*k, "KY" | "KYE" | "KYX") => kytea::run(&toks, fails),
         [k, ..] if matches!(*k, "RD" | "WJ" | "WP") => dict::run(&toks, fails),
